@@ -17,22 +17,37 @@ Require Import Ctpg.Valid.SpecMatch.
 Require Import Ctpg.Proofs.DriverBasics.
 Require Import Ctpg.Proofs.DriverPos.
 Require Import Ctpg.Proofs.DriverTokens.
+Require Import Ctpg.Model.Buffers.
+Require Import Ctpg.Proofs.BuffersCorrect.
+Require Import Ctpg.Model.Containers.
 From Coq Require Import Permutation.
 
 (* whenever the driver consults the lexer it does so at the end of the tokens consumed so far, after the option-dependent whitespace skip, with the true source point, and interprets the answer as the next token, end of input or failure of the token stream *)
 Theorem C18_lexer_consulted_exactly_at_token_boundaries :
   forall (V C : Type) (g : grammar) (tbl : LRGen.table) (opts : options) (buf : list nat) (lexer : lexer_t), lexer_in_range lexer -> eof_err_not_shifted g tbl \/ sp_indep lexer -> forall s : pstate V C, tok_inv V C g opts buf lexer s -> sp_inv V C g tbl buf s -> ps_rec s = false -> ps_it s = ps_end s -> exists pre : list (nat * nat * nat), consumed_upto opts buf lexer pre (ps_it s) /\ (let start := ps_it s + wsk opts buf (ps_it s) in let sp1 := sp_update (ps_sp s) (slice_of buf (ps_it s) start) in match skipn start buf with | [] => forall F : nat, tokenize (S F) opts lexer buf (ps_it s) = ([], TokEof start) | c :: rest => snd (lexer (o_verbose opts) sp1 (c :: rest)) = snd (lexer (o_verbose opts) (true_pos buf start) (c :: rest)) /\ match snd (lexer (o_verbose opts) sp1 (c :: rest)) with | Some (t, len) => next_tok opts buf lexer (ps_it s) (t, start, len) | None => forall F : nat, tokenize (S F) opts lexer buf (ps_it s) = ([], TokFail start) end end).
-Proof. exact consult_at_token_boundary. Qed.
+Proof. exact @consult_at_token_boundary. Qed.
 Print Assumptions C18_lexer_consulted_exactly_at_token_boundaries.
 
 (* two lexers that define the same token stream on a buffer (in particular a custom lexer and the generated one) give identical results, final stacks, contexts and parser trace lines *)
 Theorem C18_same_token_stream_same_parse :
   forall (V C : Type) (g : grammar) (tbl : LRGen.table) (opts : options) (buf : list nat) (cap : option nat) (lexer1 lexer2 : lexer_t) (term_f : nat -> nat -> nat -> spoint -> V) (err_f : spoint -> V) (rule_f : nat -> C -> list V -> C * V), lexer_in_range lexer1 -> eof_err_not_shifted g tbl \/ sp_indep lexer1 /\ sp_indep lexer2 -> (forall F : nat, tokenize F opts lexer1 buf 0 = tokenize F opts lexer2 buf 0) -> forall (fuel : nat) (c : C), let '(r1, s1, out1) := run V C g tbl opts buf cap lexer1 term_f err_f rule_f fuel c in let '(r2, s2, out2) := run V C g tbl opts buf cap lexer2 term_f err_f rule_f fuel c in r1 = r2 /\ s1 = s2 /\ non_lex out1 = non_lex out2.
-Proof. exact same_tokens_same_run. Qed.
+Proof. exact @same_tokens_same_run. Qed.
 Print Assumptions C18_same_token_stream_same_parse.
 
 (* the terms the driver shifted or discarded are exactly a prefix of the token stream *)
 Theorem C18_tokens_consumed_are_a_prefix_of_the_stream :
   forall (V C : Type) (g : grammar) (tbl : LRGen.table) (opts : options) (buf : list nat) (cap : option nat) (lexer : lexer_t) (term_f : nat -> nat -> nat -> spoint -> V) (err_f : spoint -> V) (rule_f : nat -> C -> list V -> C * V), lexer_in_range lexer -> eof_err_not_shifted g tbl \/ sp_indep lexer -> forall (fuel : nat) (c : C), let '(r, s, _, vis) := run_gh V C g tbl opts buf cap lexer term_f err_f rule_f fuel (init c) [] [] in r = OutOfFuel -> exists pos : nat, consumed_upto opts buf lexer (consumed_toks V C g tbl opts buf cap lexer term_f err_f rule_f vis) pos /\ tok_at V C g opts buf lexer pos s.
-Proof. exact run_tok_inv_gh. Qed.
+Proof. exact @run_tok_inv_gh. Qed.
 Print Assumptions C18_tokens_consumed_are_a_prefix_of_the_stream.
+
+(* 'passes that slice': get_view(begin + s, begin + e) is exactly the bytes s..e of the caller's text *)
+Theorem C18_the_slice_handed_to_the_term_functor :
+  forall (b : string_view_buffer) (s e : nat), svb_wf b -> s <= e -> e <= sv_len b -> svb_get_view b (svb_begin b + s) (svb_begin b + e) = Ok (slice (svb_text b) s e).
+Proof. exact @svb_view_spec. Qed.
+Print Assumptions C18_the_slice_handed_to_the_term_functor.
+
+(* consecutive lexemes concatenate to the text between their ends: consuming exactly the returned length loses and repeats nothing *)
+Theorem C18_consecutive_lexemes_tile_the_text :
+  forall (text : list nat) (a b c : nat), a <= b -> b <= c -> c <= length text -> slice text a b ++ slice text b c = slice text a c.
+Proof. exact @slice_concat. Qed.
+Print Assumptions C18_consecutive_lexemes_tile_the_text.
